@@ -3,7 +3,6 @@ CONSTANTS
   Objects = {"e1", "e2"}
   Sharing = "perObject"
   Deltas = {2}
-INVARIANT Accepted
 INVARIANT Progress
 INVARIANT InvShape
 INVARIANT InvStepTimes
